@@ -32,7 +32,7 @@ pub fn items_tokens(text: &str) -> (String, usize, bool) {
                 let code = crate::yamlgen::scan_error_code_in(e, text);
                 toks.push(format!("!{}@{}", b(ua), code));
                 errs += 1;
-                if errs >= 3 { break; }
+                if errs >= 12 { break; }
             }
         }
         if n > 200000 { break; }
